@@ -125,7 +125,50 @@ func nearMisses(u string) []string {
 				add(sch + "://" + hostname[i+1:] + p)
 			}
 		}
+		// the host spelt with letters outside ASCII that case mapping or IDNA mapping relates to its own letters
+		for _, v := range nmLetterVariants(hostname) {
+			add(scheme + "://" + v + p)
+			add(scheme + "://" + v + host[len(hostname):] + p)
+			add(scheme + "://evil." + v + p)
+		}
 	}
+	return out
+}
+
+// letters outside ASCII that Unicode case mapping (upper, lower, fold) or the IDNA mapping table sends to an ASCII letter,
+// or that an ASCII letter is sent to: dotted capital I, dotless i, Kelvin sign, long s, and the full-width forms.
+var nmLetterMap = map[rune][]string{
+	'i': {"\u0130", "\u0131", "\uff49"},
+	'k': {"\u212a", "\uff4b"},
+	's': {"\u017f", "\uff53"},
+}
+
+// nmLetterVariants: host with ONE letter replaced by each of its relatives (every position), with the first letter in
+// its full-width form, and with all replaceable letters replaced by their first relative.
+func nmLetterVariants(host string) []string {
+	var out []string
+	seen := map[string]bool{host: true}
+	rs := []rune(host)
+	allrep := make([]string, len(rs))
+	first := true
+	for i, r := range rs {
+		allrep[i] = string(r)
+		lr := r
+		if 'A' <= lr && lr <= 'Z' {
+			lr += 'a' - 'A'
+		}
+		for j, v := range nmLetterMap[lr] {
+			nmAdd(&out, seen, string(rs[:i])+v+string(rs[i+1:]))
+			if j == 0 {
+				allrep[i] = v
+			}
+		}
+		if first && 'a' <= lr && lr <= 'z' {
+			first = false
+			nmAdd(&out, seen, string(rs[:i])+string(rune(0xff41+(lr-'a')))+string(rs[i+1:]))
+		}
+	}
+	nmAdd(&out, seen, strings.Join(allrep, ""))
 	return out
 }
 
